@@ -80,3 +80,19 @@ func SymbolsByLen(l int) []byte {
 	}
 	return out
 }
+
+// AppendIntWrapped appends the (legal, if absurd) encoding of low + hi*2^(7*chunks) with an
+// n-bit prefix: the prefix octet, exactly `chunks` continuation octets carrying low-(2^n-1),
+// then one final octet carrying hi. With chunks >= 10 (or 9 and hi >= 2) the value does not
+// fit 64 bits, so a decoder that shifts without an overflow check wraps around to low.
+// Requires low >= 2^n-1 and low-(2^n-1) < 2^(7*chunks); hi in 1..127.
+func AppendIntWrapped(dst []byte, n uint, flags byte, low uint64, chunks int, hi byte) []byte {
+	mask := uint64(1)<<n - 1
+	dst = append(dst, flags|byte(mask))
+	rest := low - mask
+	for i := 0; i < chunks; i++ {
+		dst = append(dst, byte(rest&0x7f)|0x80)
+		rest >>= 7
+	}
+	return append(dst, hi&0x7f)
+}
